@@ -76,6 +76,9 @@ Definition run (req : sexp) : sexp :=
   | SList [SNum 3; c; s; h] =>
       or_bad (odo c' <- as_cfg c ;; odo s' <- as_st s ;; odo h' <- as_list_of as_event h ;;
               Some (SList (run_all c' s' h')))
+  (* life cycle: the constructed (not started) state; start() of a constructed / stopped state *)
+  | SList [SNum 4; last] => or_bad (odo l <- as_num last ;; Some (s_st (construct l)))
+  | SList [SNum 5; c; s] => or_bad (odo c' <- as_cfg c ;; odo s' <- as_st s ;; Some (s_st (start c' s')))
   (* specification *)
   | SList [SNum 10; SBytes self; q; w] =>
       or_bad (odo q' <- as_num q ;; odo w' <- as_wire w ;; Some (s_bool (acceptedb self q' w')))
